@@ -35,7 +35,7 @@ ASSUMPTIONS = [
 msg = st.one_of(
     st.binary(min_size=1, max_size=8),
     st.binary(min_size=1, max_size=64),
-    st.sampled_from([b"\x0a", b"\x0d\x0a", b"\x00", b"\xff", b"\x20", b"\x0a\x0a", b"\x3e\x00"]),
+    st.sampled_from([b"\x0a", b"\x0d\x0a", b"\x00", b"\xff", b"\x20", b"\x0a\x0a", b"\x3e\x00", b"\x3e\x80", b"\x3e\x80", b"\x10\x83", b"\x7f\x3e\x78"]),
     st.integers(1, 4095).flatmap(lambda n: st.binary(min_size=n, max_size=n)),
 )
 
@@ -68,7 +68,12 @@ def case_s(draw, kinds=("tcp-lines", "unix-lines", "server")) -> dict[str, Any]:
     eof_gap = draw(st.sampled_from([0, 1, 3]))
     # write side: which of the first writes meet a peer that does not drain the stream (back-pressure until the write times out)
     wblock = draw(st.one_of(st.just([]), st.lists(st.booleans(), min_size=1, max_size=6)))
-    return {"kind": kind, "msgs": msgs, "cuts": cuts, "gaps": gaps, "reads": reads, "eof_gap": eof_gap, "wblock": wblock}
+    # the peer dies in the middle of a further line: its first k characters (even and odd k) arrive, then end-of-stream
+    partial = ""
+    if kind != "server" and draw(st.integers(0, 3)) == 0:
+        full = draw(st.binary(min_size=1, max_size=8)).hex()
+        partial = full[: draw(st.integers(1, len(full)))]
+    return {"kind": kind, "msgs": msgs, "cuts": cuts, "gaps": gaps, "reads": reads, "eof_gap": eof_gap, "wblock": wblock, "partial": partial}
 
 
 def f_reply(req: bytes, idx: int) -> bytes | None:
@@ -78,7 +83,7 @@ def f_reply(req: bytes, idx: int) -> bytes | None:
 
 
 def _arrivals(case: dict[str, Any]) -> tuple[list[tuple[float, bytes]], float, bytes]:
-    stream = b"".join(hexlify(m) + b"\n" for m in case["msgs"])
+    stream = b"".join(hexlify(m) + b"\n" for m in case["msgs"]) + (case.get("partial") or "").encode()
     segs = split_at(stream, case["cuts"])
     t = 0.0
     out = []
